@@ -34,12 +34,15 @@ def _try_impl(circ, overrides=None):
 
 
 def try_ref(sx, overrides=None):
-    """Reference meaning of the program.  The oracle is evaluated on realised values with the tracer
-    suspended (it is not code under test; realising its inputs forks exactly as tracing it would)."""
-    return concretely(_try_ref, sx, overrides)
+    """Reference meaning of the program.  Harnesses call this before the code under test has run, when the
+    leaves are still symbolic: it is executed under tracing (realising all leaves up front multiplies the
+    number of paths: measured 6267 instead of 178 for one obligation)."""
+    return _try_ref(sx, overrides)
 
 
 def try_impl(circ, overrides=None):
+    """Meaning read off a circuit the code under test has produced (its values are pinned by then): evaluated
+    on realised values with the tracer suspended -- the oracle is not code under test."""
     return concretely(_try_impl, circ, overrides)
 
 
